@@ -12,6 +12,7 @@ import (
 	"time"
 
 	"github.com/boz/kcache"
+	"github.com/boz/kcache/filter"
 	metav1 "k8s.io/apimachinery/pkg/apis/meta/v1"
 	"k8s.io/apimachinery/pkg/watch"
 	"kverif/kv"
@@ -42,6 +43,8 @@ type typedSide struct {
 	closefn     func()
 	// a second subscription that is left unread until the end of the scenario (overflow variant)
 	lazyDrain func() (string, bool) // its events, and whether Events() was found closed
+	// the six constructors called once the controller is done: (name failed?) each
+	after func() string
 }
 
 func objsSx[T metav1.Object](l []T, err error) string {
@@ -65,11 +68,14 @@ func untypedSide(ctx context.Context, log *kv.Log, srv *kv.Server) (*typedSide, 
 		return nil, err
 	}
 	ml := &cbLog{}
-	h := kcache.BuildHandler().
+	hb := kcache.BuildHandler().
 		OnInitialize(func(objs []metav1.Object) { ml.add(kv.L("init", kv.SortedObjs(objs))) }).
 		OnCreate(func(o metav1.Object) { ml.add(kv.L("create", kv.Describe(o).Sx())) }).
 		OnUpdate(func(o metav1.Object) { ml.add(kv.L("update", kv.Describe(o).Sx())) }).
-		OnDelete(func(o metav1.Object) { ml.add(kv.L("delete", kv.Describe(o).Sx())) }).Create()
+		OnDelete(func(o metav1.Object) { ml.add(kv.L("delete", kv.Describe(o).Sx())) })
+	h := hb.Create()
+	hb.OnCreate(func(o metav1.Object) { ml.add(kv.L("create", kv.Obj{Kind: "wrong-handler"}.Sx())) }).
+		OnUpdate(func(o metav1.Object) { ml.add(kv.L("update", kv.Obj{Kind: "wrong-handler"}.Sx())) }).Create()
 	if _, err := kcache.NewMonitor(c, h); err != nil {
 		return nil, err
 	}
@@ -91,7 +97,24 @@ func untypedSide(ctx context.Context, log *kv.Log, srv *kv.Server) (*typedSide, 
 			}
 		}
 	}
-	return &typedSide{ready: c.Ready(), done: c.Done(), closefn: c.Close, mon: ml, lazyDrain: lazyDrain,
+	after := func() string {
+		var out []string
+		rec := func(name string, err error) { out = append(out, kv.L(name, kv.Bool(err != nil))) }
+		_, err := c.Subscribe()
+		rec("Subscribe", err)
+		_, err = c.SubscribeWithFilter(filter.Null())
+		rec("SubscribeWithFilter", err)
+		_, err = c.SubscribeForFilter()
+		rec("SubscribeForFilter", err)
+		_, err = c.Clone()
+		rec("Clone", err)
+		_, err = c.CloneWithFilter(filter.Null())
+		rec("CloneWithFilter", err)
+		_, err = c.CloneForFilter()
+		rec("CloneForFilter", err)
+		return kv.L(out...)
+	}
+	return &typedSide{ready: c.Ready(), done: c.Done(), closefn: c.Close, mon: ml, lazyDrain: lazyDrain, after: after,
 		list: func() string {
 			l, err := c.Cache().List()
 			if err != nil {
@@ -199,6 +222,10 @@ func runTypedScenario(t *testing.T, tr *tracer, idx int, seed uint64) {
 		te, tc := ty.lazyDrain()
 		ue, uc := un.lazyDrain()
 		tr.line(kv.L("tlazy", te, ue, kv.Bool(tc), kv.Bool(uc)))
+		// the constructors once both are done (a generated join calls CloneForFilter on whatever it is given)
+		time.Sleep(time.Second)
+		synctest.Wait()
+		tr.line(kv.L("tafter", ty.after(), un.after()))
 		cancel()
 		time.Sleep(5 * time.Second)
 		synctest.Wait()
